@@ -43,6 +43,14 @@ using ep::core::FpBase;
 using bls::Fq; using bls::Fq2; using bls::Fq12; using bls::Fr;
 using bls::G1; using bls::G2; using bls::G1Affine; using bls::G2Affine; using bls::G2Prepared;
 
+/* The division-free exponentiation is a template over the exponent's width; BigInt<bits> is a union rounded up to whole native double
+   words, so widths that are not a multiple of it carry padding. The exponent object here was used before: its padding holds ones. */
+template <int W> static void pow_nodiv_w(Fq12& t, const Fq12& a, const uint8_t* k) {
+    alignas(16) uint8_t raw[sizeof(BigInt<W>)]; memset(raw, 0xFF, sizeof(raw));
+    BigInt<W>* e = reinterpret_cast<BigInt<W>*>(raw); memcpy(e->bytes, k, BigInt<W>::byte_length);
+    t.template exponentiate_gt_nodiv<BigInt<W>>(a, *e);
+}
+
 #if !defined(DISABLE_ASM) && (defined(__x86_64__) || defined(_M_X64_))
 #define JV_X86_ASM 1
 extern "C" {
@@ -318,6 +326,18 @@ void jv_g1_clear_cofactor_ref(void* out, const void* inA) {
 void jv_g2_clear_cofactor_ref(void* out, const void* inA) {
     G2 t; G2Affine b; b.copy(AA2(inA));
     t.multiply_doubleadd_restrict(b, G2Affine::cofactor); O2(out).copy(t);
+}
+void jv_gt_pow_nodiv_width(void* out, const void* in, const uint8_t* k40, int width) {
+    Fq12 t;
+    switch (width) { case 64: pow_nodiv_w<64>(t, AT(in), k40); break; case 128: pow_nodiv_w<128>(t, AT(in), k40); break; case 192: pow_nodiv_w<192>(t, AT(in), k40); break;
+                     case 320: pow_nodiv_w<320>(t, AT(in), k40); break; default: pow_nodiv_w<256>(t, AT(in), k40); break; }
+    OT(out).copy(t);
+}
+/* decomposition into an object that was used before (for an earlier exponent): what a caller that keeps one PowersOfX around has */
+void jv_decompose_x_reuse(uint64_t* out4, const uint8_t* kprev32, const uint8_t* k32) {
+    BigInt<256> kp, k; load256(kp, kprev32); load256(k, k32);
+    bls::PowersOfX px; px.decompose(kp); px.decompose(k);
+    for (int i = 0; i < 4; i++) out4[i] = px.c[i].std_dwords[0];
 }
 void jv_decompose_x(uint64_t* out4, const uint8_t* k32) {
     BigInt<256> k; load256(k, k32);
